@@ -21,6 +21,29 @@ Proof.
   - assert (~ (src_area <= ref_area)%Q) by (intro H; apply Qle_bool_iff in H; congruence).
     repeat split; try lra. discriminate.
 Qed.
+(* on an exact tie either image is "the coarser one": the code's choice (the reference) is one of two that satisfy the statement,
+   so the correspondence accepts both there *)
+Theorem tie_either a b p : (a == b)%Q -> p <> PAuto -> (a <= area_of p a b /\ b <= area_of p a b)%Q.
+Proof. intros E Hp. destruct p; [congruence| |]; cbn; split; lra. Qed.
+Definition resolve_ok (req : pcrs) (a b : Q) (obs : pcrs) : bool :=
+  match obs with
+  | PAuto => false
+  | _ => match req with
+         | PAuto => if Qeq_bool a b then true else match resolve PAuto a b, obs with PSrc, PSrc | PRef, PRef => true | _, _ => false end
+         | PSrc => match obs with PSrc => true | _ => false end
+         | PRef => match obs with PRef => true | _ => false end
+         end
+  end.
+Lemma resolve_ok_self req a b : resolve_ok req a b (resolve req a b) = true.
+Proof. unfold resolve_ok, resolve. destruct req; try reflexivity. destruct (Qle_bool a b); destruct (Qeq_bool a b); reflexivity. Qed.
+Theorem resolve_ok_sound a b obs : resolve_ok PAuto a b obs = true -> (a <= area_of obs a b /\ b <= area_of obs a b)%Q /\ obs <> PAuto.
+Proof.
+  unfold resolve_ok. destruct obs; [discriminate| |]; destruct (Qeq_bool a b) eqn:E.
+  - intros _. apply Qeq_bool_iff in E. split; [apply tie_either; [exact E|discriminate]|discriminate].
+  - pose proof (auto_is_coarser a b) as H. cbv zeta in H. destruct (resolve PAuto a b); try discriminate. intros _. exact H.
+  - intros _. apply Qeq_bool_iff in E. split; [apply tie_either; [exact E|discriminate]|discriminate].
+  - pose proof (auto_is_coarser a b) as H. cbv zeta in H. destruct (resolve PAuto a b); try discriminate. intros _. exact H.
+Qed.
 Theorem explicit_is_kept req a b : req <> PAuto -> resolve req a b = req.
 Proof. destruct req; intros H; [congruence|reflexivity|reflexivity]. Qed.
 
